@@ -101,22 +101,31 @@ func (c *Client) Register() error {
 // Open creates a datatype through the public API with handlers that record everything.
 func (c *Client) Open(key, typ, mode string) *DT {
 	d := &DT{C: c, Key: key, Typ: typ, Mode: mode}
-	h := orda.NewHandlers(
-		func(dt orda.Datatype, old, new model.StateOfDatatype) {
-			d.mu.Lock()
-			d.Transitions = append(d.Transitions, Transition{old, new})
-			d.mu.Unlock()
-		},
-		func(dt orda.Datatype, opList []interface{}) {
-			d.mu.Lock()
-			d.Remote = append(d.Remote, opList)
-			d.mu.Unlock()
-		},
-		func(dt orda.Datatype, errs ...errors.OrdaError) {
-			d.mu.Lock()
-			d.Errs = append(d.Errs, errs...)
-			d.mu.Unlock()
-		})
+	onState := func(dt orda.Datatype, old, new model.StateOfDatatype) {
+		d.mu.Lock()
+		d.Transitions = append(d.Transitions, Transition{old, new})
+		d.mu.Unlock()
+	}
+	onRemote := func(dt orda.Datatype, opList []interface{}) {
+		d.mu.Lock()
+		d.Remote = append(d.Remote, opList)
+		d.mu.Unlock()
+	}
+	onErr := func(dt orda.Datatype, errs ...errors.OrdaError) {
+		d.mu.Lock()
+		d.Errs = append(d.Errs, errs...)
+		d.mu.Unlock()
+	}
+	var h *orda.Handlers
+	if (len(key)+len(c.Alias)+len(c.DTs))%3 == 0 {
+		// the other public way to the same three handlers: installed one after the other
+		// (SetHandlers leaves a handler alone where it is given none)
+		h = orda.NewHandlers(nil, nil, nil)
+		h.SetHandlers(onState, nil, onErr)
+		h.SetHandlers(nil, onRemote, nil)
+	} else {
+		h = orda.NewHandlers(onState, onRemote, onErr)
+	}
 	dt := OpenRaw(c.Cli, key, typ, mode, h)
 	if dt == nil || isNilDatatype(dt) {
 		return nil
